@@ -10,28 +10,16 @@ Proof. vm_compute. reflexivity. Qed.
 Lemma globals_vars_covered : vars_ok var_prots allow_list gen_global_vars = true.
 Proof. vm_compute. reflexivity. Qed.
 
-(* the strict obligation (no known findings) still fails on the current tree: a reachable store clears the init
-   flag (SetSchema, explicit built-in version), while reachable reads of the maps are justified ONLY by "after
-   initSchema() returned" (no lock held) — the once-reading of initSchema that justifies them does not hold *)
-Lemma globals_strict_refuted :
-  (exists r, In r gen_accesses /\ a_reach r = true /\ is_reset_site r = true /\
-             a_fn r = "SetSchema" /\ a_var r = "kyaml/openapi.globalSchema.schemaInit" /\ a_val r = "false" /\ a_ord r = 1%N) /\
-  (exists r, In r gen_accesses /\ a_reach r = true /\ a_fn r = "SchemaForResourceType" /\
-             a_kind r = AMapRead /\ a_ctx r = ["A:kyaml/openapi.initSchema"]).
-Proof.
-  split.
-  - exists (mkAcc "kyaml/openapi" "SetSchema" "kyaml/openapi.globalSchema.schemaInit" AWrite 1%N
-                  ["W:kyaml/openapi.schemaLock"] true "false").
-    repeat split; try reflexivity. vm_compute. tauto.
-  - exists (mkAcc "kyaml/openapi" "SchemaForResourceType" "kyaml/openapi.globalSchema.schemaByResourceType[]" AMapRead 0%N
-                  ["A:kyaml/openapi.initSchema"] true "").
-    repeat split; try reflexivity. vm_compute. tauto.
-Qed.
+(* no row is excused as a known finding any more (both C16 races are repaired in /repo) *)
+Lemma globals_no_findings : finding_rows var_prots allow_list gen_accesses = [].
+Proof. vm_compute. reflexivity. Qed.
 
-(* the only row excused as a known finding: the store that clears schemaInit when a build names a built-in version *)
-Lemma globals_findings_are_reinit :
-  map (fun r => (a_fn r, a_var r, a_ord r)) (finding_rows var_prots allow_list gen_accesses)
-  = [("SetSchema", "kyaml/openapi.globalSchema.schemaInit", 1%N)].
+(* the stores that clear the init flag are exactly the three listed reset sites, all under the write lock *)
+Lemma globals_reset_sites :
+  map (fun r => (a_fn r, a_var r, a_ord r, a_ctx r)) (filter (fun r => is_reset_site r && a_reach r) gen_accesses)
+  = [("SetSchema", "kyaml/openapi.globalSchema.schemaInit", 0%N, ["W:kyaml/openapi.schemaLock"]);
+     ("SetSchema", "kyaml/openapi.globalSchema.schemaInit", 1%N, ["W:kyaml/openapi.schemaLock"]);
+     ("dropParsedSchema", "kyaml/openapi.globalSchema", 0%N, ["W:kyaml/openapi.schemaLock"])].
 Proof. vm_compute. reflexivity. Qed.
 
 (* the repaired read: both rows of IsNamespaceScoped are under the read lock and judged disciplined *)
